@@ -80,6 +80,14 @@ def check(run):
         if not (np.array_equal(a, minor[sub]) and np.array_equal(b, middle[sub]) and np.array_equal(c, major[sub])):
             run.violation('euler-batch-dependence', dict(codes=sub.tolist()[:10]))
             break
+    # the codes may arrive in any integer dtype that can hold them
+    for dt in (np.uint16, np.int32, np.int64, np.uint32, np.uint64):
+        sub = rng.integers(0, NCODES, 5000)
+        a, b, c = chc._unpack_euler16(sub.astype(dt))
+        run.ev(len(sub))
+        run.nt(('dtype', np.dtype(dt).str))
+        if not (np.array_equal(a, minor[sub]) and np.array_equal(b, middle[sub]) and np.array_equal(c, major[sub])):
+            run.violation('euler-input-dtype-dependence', dict(dtype=np.dtype(dt).str))
     # single-cap batches (boolean-mask assignment paths see only one cap)
     for cap in range(12):
         sub = codes[cap * 121 * 45 : (cap + 1) * 121 * 45]
